@@ -3200,8 +3200,13 @@ class Generator:
                 and (not spec or spec.text("kind").upper() == "ROWS")
             ):
                 if window_this and spec:
+                    window_name = (
+                        window_this.sql_name()
+                        if isinstance(window_this, exp.Func)
+                        else window_this.key.upper()
+                    )
                     self.unsupported(
-                        f"'{nulls_sort_change.strip()}' translation not supported in window function {window_this.sql_name()}"
+                        f"'{nulls_sort_change.strip()}' translation not supported in window function {window_name}"
                     )
                     nulls_sort_change = ""
                 elif self.NULL_ORDERING_SUPPORTED is False and (
